@@ -150,12 +150,18 @@ impl BaseStream {
                         Some(timeout) => rx.recv_timeout(timeout) == Err(mpsc::RecvTimeoutError::Timeout),
                         None => rx.try_recv() == Err(mpsc::TryRecvError::Empty),
                     };
+                    #[cfg(feature = "verif-hooks")]
+                    crate::verif_hooks::sched_point("wd.wake");
 
                     if shutdown {
                         drop(rx);
+                        #[cfg(feature = "verif-hooks")]
+                        crate::verif_hooks::sched_point("wd.dropped");
 
                         #[cfg(not(windows))]
                         let _ = stream.shutdown(Shutdown::Both);
+                        #[cfg(feature = "verif-hooks")]
+                        crate::verif_hooks::sched_point("wd.shutdown");
 
                         #[cfg(windows)]
                         extern "system" {
@@ -167,6 +173,8 @@ impl BaseStream {
                             closesocket(socket);
                         }
                     }
+                    #[cfg(feature = "verif-hooks")]
+                    crate::verif_hooks::sched_point("wd.exit");
                 });
                 Ok(tx)
             })
@@ -234,6 +242,8 @@ impl Write for BaseStream {
 fn read_timeout(stream: &mut impl Read, buf: &mut [u8], timeout: &Option<mpsc::Sender<()>>) -> io::Result<usize> {
     match stream.read(buf) {
         Ok(0) => {
+            #[cfg(feature = "verif-hooks")]
+            crate::verif_hooks::sched_point("rd.zero");
             #[cfg(unix)]
             if let Some(timeout) = timeout {
                 // On Unix we get a 0 read when the connection is shutdown by the timeout thread.
@@ -241,6 +251,8 @@ fn read_timeout(stream: &mut impl Read, buf: &mut [u8], timeout: &Option<mpsc::S
                     return Err(io::ErrorKind::TimedOut.into());
                 }
             }
+            #[cfg(feature = "verif-hooks")]
+            crate::verif_hooks::sched_point("rd.pinged");
             Ok(0)
         }
         Ok(read) => Ok(read),
